@@ -7,6 +7,8 @@ package main
 import (
 	"bufio"
 	"bytes"
+	"encoding/base32"
+	"encoding/base64"
 	"fmt"
 	"mime"
 	"net"
@@ -37,6 +39,18 @@ func oracleAnswer(kind string, args []string) string {
 			return "0"
 		}
 		return "1"
+	case "b32dec":
+		b, err := base32.StdEncoding.DecodeString(unhxs(args[0]))
+		if err != nil {
+			return "err"
+		}
+		return hx(b)
+	case "b64dec":
+		b, err := base64.StdEncoding.DecodeString(unhxs(args[0]))
+		if err != nil {
+			return "err"
+		}
+		return hx(b)
 	case "urlid":
 		if _, err := url.Parse(unhxs(args[0])); err != nil {
 			return "0"
